@@ -18,6 +18,7 @@ from vf.models import geom_ref as G
 ID = "C16"
 FLAVOUR = "plain"
 LEVEL = "exploration"
+THOROUGH_MULT = 5.0       # deepens the sampled strata of the thorough tier (measured: about ten minutes on 16 cores)
 RULE = (
     "seeded generator.  Point sets with n = 1..60 atoms of rank 0 (coincident), 1 (collinear), 2 (planar), 3 (generic), mirror-symmetric, "
     "regular polyhedra; scale 0.1-100 A, centred up to 10^4 A from the origin; mobile = random rigid motion of fixed + Gaussian noise "
